@@ -1370,7 +1370,7 @@ def gen_lib(rng, hist=False):
         cl["args"] = [d for _, _, d in lib_table(classes + [cl], cl["mro"], None)]
         # the older public way of declaring parameters: class decorators @param / @option / @pathoption / @constant
         cl["deco"] = rng.random() < 0.3 and len(parents) <= 1 and not any("dkey" in a for a in own)
-        if not hist and rng.random() < 0.3:
+        if rng.random() < 0.3:
             # a user hook `__validate__`: raises ValueError when a scalar parameter has a given value, and (C17's idiom) may
             # complete an unset optional parameter; inherited by the subclasses like any method
             trig = [a for a in own if a["ty"]["k"] in ("int", "str") and not a["generator"] and not a["constant"]]
@@ -1378,7 +1378,7 @@ def gen_lib(rng, hist=False):
             if trig:
                 a = rng.choice(trig)
                 cl["hook"] = {"name": a["name"], "v": D_int(7) if a["ty"]["k"] == "int" else D_str("hk")}
-                if comp and rng.random() < 0.5:
+                if comp and not hist and rng.random() < 0.5:
                     cl["hook"]["complete"] = rng.choice(comp)["name"]
         classes.append(cl)
     return classes
@@ -2145,6 +2145,7 @@ def hist_line(impl, classes, h, mros):
             "classes": [[{"ty": a["ty"], "default": a["default"] is not None, "generator": a["generator"], "constant": a["constant"]}
                          for a in c["args"]] for c in classes],
             "tasks": [i for i, c in enumerate(classes) if c["base"] == "Task"],
+            "hooks": [[i, eh[0], eh[1]] for i in range(len(classes)) for eh in [eff_hook(classes, i)] if eh],
             "nodes": [{"cls": nd["cls"], "vals": [None] * len(nd["vals"]), "pre": nd["pre"], "init": nd["init"]} for nd in h["nodes"]],
             "ops": [o if o["o"] == "submit" else {"o": "assign", "n": o["n"], "k": o["k"], "v": with_mro(o["v"], mros)} for o in h["ops"]]}
 
@@ -2211,7 +2212,9 @@ def run_history_case(ctx, classes, defaults, W, mros, h, lines, impls, metas):
                                          f"step {i}: submit of node {op['n']} ({classes[nodes[op['n']]['cls']]['name']}) is {out} and the registry goes "
                                          f"{before} -> {after} although node {miss[0]} ({classes[nodes[miss[0]]['cls']]['name']}), reachable from it, "
                                          f"misses a required value; history: {describe_ops(h['ops'][: i + 1], classes, nodes)}", prefix)
-                    if not miss and out == "rejected-missing" and not had_job:
+                    hooked = [m for m in reachable(cur, classes, True) if eff_hook(classes, nodes[m]["cls"])]
+                    ctx.count("history_submit_hooks", "a reachable class has a hook" if hooked else "none")
+                    if not miss and out == "rejected-missing" and not had_job and not hooked:
                         ctx.monitor_fail("history-submit-rejects-complete",
                                          f"step {i}: submit of node {op['n']} raises ValueError although no reachable node misses a required value "
                                          f"(a value completed between two attempts must be seen); history: {describe_ops(h['ops'][: i + 1], classes, nodes)}", prefix)
